@@ -137,6 +137,20 @@ CLAIMED = {
        "AIFF writer stores neither cues nor instrument (accepted and ignored).",
   technique="Coq proof (line-end normaliser, string table refinement) + differential K correspondence + metadata round-trip oracle",
   design_ref="DESIGN.md section 5 C12"),
+ "C01": dict(
+  text="Theorems (Coq): a short written to PCM >= 16 bits wide reads back bit exact for every short; an int reads back with exactly its top w bits, hence bit "
+       "exact whenever the low 32-w bits are zero (every width); stored bytes read back as the same code in both byte orders; the 8 KiB staging loops "
+       "equal the per-sample map for EVERY length (induction over the refills); for any block length B, any per-block codec with dec(enc b) = b and "
+       "any history of write calls the closed file decodes to the samples written followed by fewer than B zero samples (first N bit exact, "
+       "N <= F < N + B). Tie: C02's exhaustive conversion correspondence; the stored codes and frame count of every sample-granular file of the run "
+       "are predicted by the model; write / close / re-open / read oracle over every lossless container x encoding x endian x caller type, channels 1 "
+       "and max, N around every block boundary and 4097, full-range noise with only the unrepresentable low bits cleared, arbitrary finite float / "
+       "double bit patterns.",
+  note="Trusted: Coq kernel, PcmConv.v / Endian.v / Stream.v, extraction, sfdrive. The concrete block codecs (ALAC, DWVW, DPCM, SDS and PAF24 packers) are "
+       "abstract in the theorem and decided by the oracle. Known findings: PAF24 and SDS final block, ALAC_20/24 noise, ALAC_32, tiny SD2 files, trailing "
+       "zero frames of header-less DWVW.",
+  technique="Coq proof (per-sample round trips, staging-loop induction, generic block-stream theorem) + model prediction of stored codes + round-trip oracle",
+  design_ref="DESIGN.md section 5 C01"),
 }
 
 
